@@ -158,13 +158,22 @@ class Driver:
         r = self.eng.request([item], version=version, user=user)
         if r['error'] is not None:
             return {'status': 'REQUEST_ERROR', 'reason': r['error']['reason'], 'crash': None, 'crypto': list(self.crypto_calls),
-                    'warned': self.cap.warnings, 'message': r['error']['message']}
+                    'warned': self.cap.warnings, 'message': r['error']['message'], 'encode': None}
         it = r['items'][0]
+        enc = None
+        try:
+            from kmip.core import utils as _utils
+            kv = getattr(enums.KMIPVersion, 'KMIP_%d_%d' % tuple(version))
+            r['raw'].write(_utils.BytearrayStream(), kmip_version=kv)
+        except Exception as e:      # the session turns this into a GENERAL_FAILURE error response (repo commit d6c2cec)
+            fr = [f for f in traceback.extract_tb(e.__traceback__) if '/kmip/' in f.filename.replace('\\', '/') and '/site-packages/' not in f.filename]
+            enc = {'site': ('%s:%s' % (fr[-1].filename.replace('\\', '/').split('/kmip/', 1)[1], fr[-1].name)) if fr else None,
+                   'exc': type(e).__name__, 'msg': str(e)[:160], 'detail': exc_detail(e)}
         crash = None
         if it['reason'] == 'GENERAL_FAILURE':
             crash = dict(self.cap.sites[-1]) if self.cap.sites else {'site': None, 'exc': None}
         return {'status': it['status'], 'reason': it['reason'], 'crash': crash, 'crypto': list(self.crypto_calls),
-                'warned': self.cap.warnings, 'message': it['message'], 'payload': it['payload']}
+                'warned': self.cap.warnings, 'message': it['message'], 'payload': it['payload'], 'encode': enc}
 
 
 # ---------------------------------------------------------------------------------------------- stores
@@ -241,7 +250,7 @@ def add_object(drv, spec, k):
     return uid
 
 
-def observe_store(drv, user='alice'):
+def observe_store(drv, user='alice', policy_op=None):
     """Summary of every stored object (raw SQL read of the tables the engine's ORM maps; the class is the one
     KmipEngine._object_map gives for the stored object type, exactly as _get_object_type does) + whether `user` passes
     the default operation policy (owner only).  This is the `store` the Coq model receives."""
@@ -270,7 +279,7 @@ def observe_store(drv, user='alice'):
             en = lambda x: None if x is None or x == -1 else x
             out.append({
                 'uid': int(u), 'cls': cls.__name__, 'otype': r['object_type'],
-                'allowed': bool(r['owner'] == user), 'state': en(c['state']) if c else None,
+                'owner': r['owner'], 'allowed': bool(r['owner'] == user), 'state': en(c['state']) if c else None,
                 'mask': (c['cryptographic_usage_mask'] or 0) if c else 0,
                 'names': names.get(u, []), 'asi': asi.get(u, []), 'groups': groups.get(u, []),
                 'value_empty': not bool(r['value']), 'kft': en(k['key_format_type']) if k else None,
@@ -901,6 +910,29 @@ def coq_cres(obs):
     return '(CExc %s)' % cp.string(site_string(obs['crash']) or ('unobserved:' + res)), True
 
 
+POLICY_OP = {'Get': OP.GET, 'GetAttributes': OP.GET_ATTRIBUTES, 'GetAttributeList': OP.GET_ATTRIBUTE_LIST, 'Activate': OP.ACTIVATE,
+             'Revoke': OP.REVOKE, 'Destroy': OP.DESTROY, 'Locate': OP.LOCATE, 'Encrypt': OP.GET, 'Decrypt': OP.GET, 'Sign': OP.GET,
+             'SignatureVerify': OP.GET, 'MAC': OP.GET, 'DeriveKey': OP.GET, 'SetAttribute': OP.SET_ATTRIBUTE,
+             'ModifyAttribute1': OP.MODIFY_ATTRIBUTE, 'ModifyAttribute2': OP.MODIFY_ATTRIBUTE,
+             'DeleteAttribute1': OP.DELETE_ATTRIBUTE, 'DeleteAttribute2': OP.DELETE_ATTRIBUTE}
+
+
+def with_access(drv, store_obs, user, req_op):
+    """The store summary with `allowed` decided by the engine's own is_allowed for the operation whose policy entry the
+    handler consults (access control itself is C03's subject; here it is an observed input of the model)."""
+    pop = POLICY_OP.get(req_op)
+    out = []
+    for o in store_obs:
+        o = dict(o)
+        if pop is None:
+            o['allowed'] = False
+        else:
+            o['allowed'] = bool(drv.eng.engine.is_allowed(o['policy'], user, None, o['owner'], enums.ObjectType(o['otype']), pop))
+        del o['owner']
+        out.append(o)
+    return out
+
+
 OP_NAMES = {'Create': 'CREATE', 'CreateKeyPair': 'CREATE_KEY_PAIR', 'Register': 'REGISTER', 'DeriveKey': 'DERIVE_KEY', 'Locate': 'LOCATE',
             'Get': 'GET', 'GetAttributes': 'GET_ATTRIBUTES', 'GetAttributeList': 'GET_ATTRIBUTE_LIST', 'Activate': 'ACTIVATE',
             'Revoke': 'REVOKE', 'Destroy': 'DESTROY', 'Query': 'QUERY', 'DiscoverVersions': 'DISCOVER_VERSIONS', 'Encrypt': 'ENCRYPT',
@@ -950,6 +982,7 @@ class Grid:
 
     def cell(self, drv, req, ver, store_obs, user='alice', desc=None):
         ctx = self.ctx
+        store_obs = with_access(drv, store_obs, user, req['op'])
         obs = drv.run(mk_item(req), ver, user)
         self.cells += 1
         op = OP_NAMES[req['op']]
@@ -959,7 +992,8 @@ class Grid:
         if desc:
             ctx.count('target.%s' % desc)
         witness = {'version': list(ver), 'user': user, 'request': jsonable(req), 'store': store_obs,
-                   'observed': {'status': obs['status'], 'reason': obs['reason'], 'crash': obs['crash'], 'crypto': obs['crypto']}}
+                   'observed': {'status': obs['status'], 'reason': obs['reason'], 'crash': obs['crash'], 'crypto': obs['crypto'],
+                                'encode': obs.get('encode')}}
         # ---- direct oracle: the property itself, no model involved
         if crashed != (obs['warned'] > 0):
             ctx.violation({'op': op, 'site': 'log-vs-reason'}, witness, 'GENERAL_FAILURE and the WARNING record disagree')
@@ -972,6 +1006,13 @@ class Grid:
             if tgt:
                 sig['stored_type'] = tgt[0]['cls']
             ctx.violation(sig, witness, '%s answered GENERAL_FAILURE (%s)' % (op, site_string(c)))
+        if obs.get('encode'):
+            e = obs['encode']
+            self.encode_failures = getattr(self, 'encode_failures', 0) + 1
+            ctx.count('op.%s.response-not-encodable' % op)
+            ctx.violation({'op': op, 'site': e['site'], 'exc': e['exc'], 'detail': e.get('detail', ''), 'version': '%d.%d' % ver,
+                           'stage': 'encode-response'}, witness,
+                          '%s: the response cannot be encoded (%s:%s %s); the session answers GENERAL_FAILURE' % (op, e['site'], e['exc'], e['msg']))
         # ---- correspondence case
         it = coq_item(req)
         if it is None:
